@@ -57,9 +57,20 @@ class Cal:
         for a, b in self.gl:
             if a <= t < b:
                 return True
-        r, _ = self.res[fid]
+        # leaves, vacations and bookings of a resource are ONE inherited list: a resource that declares any of them has its
+        # own list, a resource that declares none takes the list of the nearest enclosing resource that does
+        r = None
+        f = fid
+        while f is not None:
+            r0, par = self.res[f]
+            if r0.get("leaves") or r0.get("vacations") or r0.get("bookings"):
+                r = r0
+                break
+            f = par
+        if r is None:
+            return False
         iv = []
-        for (_ty, a, b) in self._inherited(fid, "leaves") or []:
+        for (_ty, a, b) in r.get("leaves") or []:
             iv.append((a, b if (b is not None and b != a) else a + 86400))
         for (a, b) in r.get("vacations") or []:
             iv.append((a, b if (b is not None and b != a) else a + 86400))
